@@ -199,8 +199,13 @@ func (e *Exec) feasibleMax(ln *smt.Term) (int, bool) {
 func (e *Exec) regexMatch(pat string, s Str) *smt.Term {
 	sv := strView(s)
 	if t, ok := sv.wholeAtom(); ok {
-		e.Notes[fmt.Sprintf("stub regexp on opaque atom: uninterpreted predicate for %q", pat)] = true
-		return smt.UF("re_match:"+pat, "(Str) Bool", smt.Bool, t)
+		// atoms are matched at byte level too (over strbyte), so that models are
+		// realisable natively; only an atom of unbounded length falls back to an
+		// uninterpreted predicate
+		if _, bounded := e.feasibleMax(sv.Len); !bounded {
+			e.Notes[fmt.Sprintf("stub regexp on an atom of unbounded length: uninterpreted predicate for %q", pat)] = true
+			return smt.UF("re_match:"+pat, "(Str) Bool", smt.Bool, t)
+		}
 	}
 	if cs, ok := sv.concrete(); ok {
 		return smt.BoolConst(goRegexMatch(pat, cs))
